@@ -319,7 +319,12 @@ impl Reader {
                 self.pos += 1;
                 let name = self.tzname()?;
                 let full = if name == "UTC" { "UTC".to_string() } else { name.clone() };
-                return Ok(V::DateTime(DT { secs: local, nanos, offset: 0, tz_full: full, tz: name }));
+                // the fields are UTC; the local offset is the named zone's at that instant
+                let off = match super::time_ref::zone_of_city(&name) {
+                    Some(z) if name != "UTC" => super::time_ref::offset_at(&z, local),
+                    _ => 0,
+                };
+                return Ok(V::DateTime(DT { secs: local, nanos, offset: off, tz_full: full, tz: name }));
             }
             return Ok(V::DateTime(DT { secs: local, nanos, offset: 0, tz_full: "UTC".into(), tz: "UTC".into() }));
         }
@@ -956,13 +961,17 @@ impl<'a> Writer<'a> {
             V::Date(y, m, d) => self.out.push_str(&format!("{y:04}-{m:02}-{d:02}")),
             V::Time(h, m, s, n) => self.time(*h, *m, *s, *n),
             V::DateTime(dt) => {
-                let local = dt.secs + dt.offset as i64;
+                // `<UTC fields>Z <City>` is a legal spelling of a timestamp in any zone
+                let in_utc = dt.tz != "UTC" && dt.offset != 0 && dt.offset % 60 == 0 && self.pick("utc-fields-with-zone", 2) == 1;
+                let local = dt.secs + if in_utc { 0 } else { dt.offset as i64 };
                 let days = local.div_euclid(86400);
                 let sod = local.rem_euclid(86400) as u32;
                 let (y, m, d) = civil_from_days(days);
                 self.out.push_str(&format!("{y:04}-{m:02}-{d:02}T"));
                 self.time(sod / 3600, (sod / 60) % 60, sod % 60, dt.nanos);
-                if dt.tz == "UTC" {
+                if in_utc {
+                    self.out.push_str(&format!("Z {}", dt.tz));
+                } else if dt.tz == "UTC" {
                     self.out.push('Z');
                     if self.pick("utc-spelling", 2) == 1 {
                         self.out.push_str(" UTC");
